@@ -292,6 +292,11 @@ func (s *cConns) Get(ctx context.Context, id sb.ConnID) (sb.Conn, bool) {
 
 // ---------------------------------------------------------------- harness state
 
+type poisoned struct {
+	val  string
+	code codes.Code
+}
+
 type nbCall struct {
 	kind  string // set | rollback
 	index uint64
@@ -306,6 +311,7 @@ type H struct {
 	devs        map[string]*fakes.Device
 	devPos      map[string]int
 	policy      map[string][]codes.Code // upcoming answers per target
+	poison      map[string]poisoned     // a value the device of a target refuses every time
 	txR         *txctl.Reconciler
 	propR       *propctl.Reconciler
 	cfgR        *cfgctl.Reconciler
@@ -336,6 +342,7 @@ type H struct {
 	script      []op
 	twin        string // outcome summary of the crash-free twin ("" = none)
 	raw         map[configapi.ConfigurationID]_map.Map[string, *configapi.PathValue]
+	entries     _map.Map[configapi.ConfigurationID, *configapi.Configuration]
 }
 
 func tnum(t string) string { return strings.TrimPrefix(t, "t") }
@@ -348,7 +355,7 @@ func hx(s string) string {
 }
 
 func newH(seed int64, hid string, out *bufio.Writer, ntargets int, persistent map[string]bool) *H {
-	h := &H{devs: map[string]*fakes.Device{}, devPos: map[string]int{}, policy: map[string][]codes.Code{},
+	h := &H{devs: map[string]*fakes.Device{}, devPos: map[string]int{}, policy: map[string][]codes.Code{}, poison: map[string]poisoned{},
 		crash: &crashCtl{budget: -1, race: -1, readFault: -1}, r: rand.New(rand.NewSource(seed)), out: out, hid: hid, knownC: map[string]bool{}, lastVerdict: -1,
 		raw: map[configapi.ConfigurationID]_map.Map[string, *configapi.PathValue]{}}
 	h.rs = h.r
@@ -379,6 +386,14 @@ func newH(seed int64, hid string, out *bufio.Writer, ntargets int, persistent ma
 		d := fakes.NewDevice(t)
 		tt := t
 		d.Policy = func(n int, r *fakes.DevReq) codes.Code {
+			// a poisoned value is refused whenever it is sent (the same answer before and after a crash)
+			if pz, ok := h.poison[tt]; ok {
+				for _, u := range r.Updates {
+					if strings.HasSuffix(u[1], pz.val) {
+						return pz.code
+					}
+				}
+			}
 			q := h.policy[tt]
 			if len(q) == 0 {
 				return codes.OK
@@ -580,9 +595,11 @@ func (h *H) dump() string {
 			}
 			return connNum(s)
 		}
-		fmt.Fprintf(&b, " (c %s %d %s %d %d %d %s %s %d %s %d %s %s %s)", tnum(string(c.TargetID)), c.Index, cmStr(c.Values), c.Status.Proposed.Index,
+		inl, ainl := h.rawEntry(c.ID)
+		fmt.Fprintf(&b, " (c %s %d %s %d %d %d %s %s %d %s %d %s %s %s %s %s)", tnum(string(c.TargetID)), c.Index, cmStr(c.Values), c.Status.Proposed.Index,
 			c.Status.Committed.Index, c.Status.Applied.Index, c.Status.State.String(), m(c.Status.Mastership.Master), c.Status.Mastership.Term,
-			m(c.Status.Applied.Mastership.Master), c.Status.Applied.Mastership.Term, cmStr(c.Status.Applied.Values), cmStr(h.rawMap(c.ID, "")), cmStr(h.rawMap(c.ID, "-applied")))
+			m(c.Status.Applied.Mastership.Master), c.Status.Applied.Mastership.Term, cmStr(c.Status.Applied.Values), cmStr(h.rawMap(c.ID, "")), cmStr(h.rawMap(c.ID, "-applied")),
+			cmStr(inl), cmStr(ainl))
 	}
 	b.WriteString(") (targets")
 	for _, t := range h.targets {
@@ -623,6 +640,26 @@ func (h *H) dump() string {
 	}
 	b.WriteString("))")
 	return b.String()
+}
+
+// rawEntry reads the configuration entry as it is stored (not overlaid with the path-value maps): the copies of the
+// committed and of the applied values that the entry itself carries
+func (h *H) rawEntry(id configapi.ConfigurationID) (map[string]*configapi.PathValue, map[string]*configapi.PathValue) {
+	ctx := context.Background()
+	if h.entries == nil {
+		m, err := _map.NewBuilder[configapi.ConfigurationID, *configapi.Configuration](h.e.Atomix, "configurations").
+			Tag("onos-config", "configuration").
+			Codec(types.Proto[*configapi.Configuration](&configapi.Configuration{})).Get(ctx)
+		if err != nil {
+			panic(err)
+		}
+		h.entries = m
+	}
+	e, err := h.entries.Get(ctx, id)
+	if err != nil || e.Value == nil {
+		return nil, nil
+	}
+	return e.Value.Values, e.Value.Status.Applied.Values
 }
 
 // rawMap lists the Atomix path-value map of a configuration (the committed and the applied values share it)
@@ -1228,7 +1265,7 @@ func (h *H) randomSteps(n int, crashProb int) {
 		id := ids[h.r.Intn(len(ids))]
 		budget := -1
 		if crashProb > 0 && h.r.Intn(100) < crashProb {
-			budget = 1 + h.r.Intn(4)/3
+			budget = 1 + h.r.Intn(3)
 		}
 		h.reconcile(id, budget)
 	}
@@ -1254,6 +1291,16 @@ func (h *H) interfere(outer recID) {
 	if len(cands) == 0 {
 		return
 	}
+	// half of the time a later proposal of the same target (its linking writes the proposal that is being applied)
+	succ := []recID{}
+	for _, id := range cands {
+		if id.kind == "prop" && id.a == outer.a && id.idx > outer.idx {
+			succ = append(succ, id)
+		}
+	}
+	if len(succ) > 0 && h.r.Intn(2) == 0 {
+		cands = succ
+	}
 	h.nesting++
 	h.midcalls++
 	h.reconcile(cands[h.r.Intn(len(cands))], -1)
@@ -1275,7 +1322,7 @@ func (h *H) settle(maxPasses int, crashProb int) bool {
 			budget := -1
 			// in crash histories the first passes still interrupt reconciles (most of the work happens here)
 			if crashProb > 0 && p < 12 && h.r.Intn(100) < crashProb {
-				budget = 1 + h.r.Intn(4)/3
+				budget = 1 + h.r.Intn(3)
 			}
 			h.reconcile(id, budget)
 		}
@@ -1596,11 +1643,15 @@ func runScenario(seed int64, n int, out *bufio.Writer, kind string, suffix strin
 		refusals := []codes.Code{codes.InvalidArgument, codes.Internal, codes.NotFound, codes.Unknown, codes.AlreadyExists, codes.FailedPrecondition,
 			codes.Unimplemented, codes.OutOfRange}
 		bad := env.Pick(r, h.targets)
-		h.policy[bad] = append(h.policy[bad], env.Pick(r, refusals))
-		h.emit("(devpolicy)", fmt.Sprintf("%s:refusal:1", tnum(bad)))
+		h.poison[bad] = poisoned{val: "vPOISON", code: env.Pick(r, refusals)}
+		h.emit("(devpolicy)", fmt.Sprintf("%s:refusal-of-a-value", tnum(bad)))
 		ops := []op{}
 		for _, t := range h.targets {
-			ops = append(ops, op{target: t, path: env.Pick(r, paths), val: fmt.Sprintf("v%d", r.Intn(1000))})
+			v := fmt.Sprintf("v%d", r.Intn(1000))
+			if t == bad {
+				v = "vPOISON"
+			}
+			ops = append(ops, op{target: t, path: env.Pick(r, paths), val: v})
 		}
 		h.nbSet(ops, r.Intn(2) == 0, false)
 		// the second change is submitted either at once (it queues behind the first on every target: its proposals are
